@@ -42,7 +42,7 @@ def sets_for(tier):
 
 def bounds(tier):
     return dict(fasta_records={k: len(v) for k, v in RECORDS.items()}, exon_sets=len(sets_for(tier)), spans=["hull", "left+1", "right+1"],
-                cds_options=4, strands=["+", "-", "."])
+                cds_options=5, strands=["+", "-", "."])
 
 
 def shards(tier):
@@ -88,7 +88,7 @@ def body_bed(ch, ctx):
     exons = ch.choose("exons", sets_for(ctx.tier)[i0:i1])
     span = ch.choose("span", ("hull", "left", "right"))
     strand = ch.choose("strand", "+-")
-    cds_opt = ch.choose("cds", ("none", "first", "first_last", "inner"))
+    cds_opt = ch.choose("cds", ("none", "first", "first_last", "inner", "first_last_desc"))
     name_field = ch.choose("name_field", ("ID", "Name"))
     byid = ch.choose("argument", ("id", "feature"))
     mode = ch.choose("mode", ("thick", "thin"))
@@ -107,7 +107,7 @@ def body_bed(ch, ctx):
         a, b = exons[0][0] + off, exons[0][1] + off
         if cds_opt == "first":
             cds = [(a, b)]
-        elif cds_opt == "first_last":
+        elif cds_opt in ("first_last", "first_last_desc"):
             cds = [(a, b), (exons[-1][0] + off, exons[-1][1] + off)] if len(exons) > 1 else [(a, b)]
         else:
             cds = [(a + 1, b - 1)] if b - a >= 2 else [(a, b)]
@@ -115,7 +115,7 @@ def body_bed(ch, ctx):
     lines = ["c7\ts\tmRNA\t%d\t%d\t.\t%s\t.\tID=t1" % (ts, te, strand)]
     for a, b in exons:
         lines.append("c7\ts\texon\t%d\t%d\t.\t%s\t.\tParent=t1" % (a + off, b + off, strand))
-    for a, b in cds:
+    for a, b in (reversed(cds) if cds_opt == "first_last_desc" else cds):
         lines.append("c7\ts\t%s\t%d\t%d\t.\t%s\t.\tParent=t1" % (child_type, a, b, strand))
     path = dbutil.write_text(ctx.fresh_dir(), "t.gff", "\n".join(lines) + "\n")
     db = gffutils.create_db(path, ":memory:", verbose=False)
